@@ -402,6 +402,10 @@ func appendSlice(expr ast.Expr, lhsV reflect.Value, rhsV reflect.Value) (reflect
 		for i := 0; i < rhsV.Len(); i++ {
 			value := rhsV.Index(i)
 			if rhsT == interfaceType {
+				if value.IsNil() {
+					// nil has no conversion to a non-interface element type
+					return nilValue, newStringError(expr, "invalid type conversion")
+				}
 				value = value.Elem()
 			}
 			if lhsT == value.Type() {
